@@ -106,6 +106,17 @@ def replay_file(path):
         print("no failing input recorded for this obligation (no-failing-input-found); verifier output:")
         print(d.get("verifier_output", ""))
         return 0
+    if fi.get("mode") == "cli":
+        from . import clisweep
+        r, err = clisweep.replay_case(REPO, fi["case"])
+        print(f"mode=cli case={fi['case']}")
+        if r is not None:
+            print("REPRODUCED on the real binary:")
+            print("  expected:", r["expected"])
+            print("  actual:  ", r["actual"])
+            return 1
+        print("not reproduced on the current tree" + (": " + err if err else ""))
+        return 0
     binary, err = build_replay()
     if binary is None:
         print("replay crate does not build against the current tree:", err)
@@ -130,6 +141,7 @@ BOUNDS = {
     "parse": "real parser vs an independent recursive-descent parser on real tokens: all token sequences of length <= 3 (4 in thorough) over 22 lexemes plus random and mutated sentences",
     "ops": "all pairs of the 256 functions over 3 variables (two index patterns, operands from the same and from a foreign environment) for the binary connectives; not; random triples for ite",
     "retain": "all 256 functions x 3 filters, plus call sequences sharing one environment",
+    "history": "seeded random sequences of 25 operations (connectives, quantifiers, counting, model, retain, clean) on a growing pool in ONE environment: each result must be structurally equal to what a fresh environment computes, every earlier result must keep its truth table, both leaves must stay available; plus the clean-with-only-a-constant-alive scenario",
 }
 
 
